@@ -47,6 +47,7 @@ func genC04(seed uint64, tier string) *Plan {
 	nq := r.Range(1, 6)
 	o := AllQ
 	o.DataSpan = span
+	o.PctOverFields = true
 	for i := 0; i < nq; i++ {
 		t := &p.Tables[r.Intn(len(p.Tables))]
 		q := genQuery(r, t, u, o)
